@@ -1101,3 +1101,7 @@ def append(a, v):
     a = array(a) if not isinstance(a, SArray) else a
     vs = list(v.items) if isinstance(v, SArray) else list(v) if isinstance(v, (list, tuple)) else [v]
     return SArray(list(a.items) + vs, a.dtype)
+
+
+def dtype(t):
+    return _dt(t)
